@@ -38,6 +38,7 @@ type env interface {
 	listenTCP(addr string) (listener, error)
 	dialTCP(addr string) (transport.StreamConn, error)
 	listenUDP(addr string) (net.PacketConn, error)
+	listenUDPNet(network, addr string) (net.PacketConn, error)
 	dialer(control func(network, address string, c syscall.RawConn) error) dialer
 	resolveUDP(addr string) (*net.UDPAddr, error)
 	spawn(f func()) (wait func())
@@ -70,6 +71,9 @@ func (realEnv) dialTCP(addr string) (transport.StreamConn, error) {
 	return c.(*net.TCPConn), nil
 }
 func (realEnv) listenUDP(addr string) (net.PacketConn, error) { return net.ListenPacket("udp", addr) }
+func (realEnv) listenUDPNet(network, addr string) (net.PacketConn, error) {
+	return net.ListenPacket(network, addr)
+}
 func (realEnv) dialer(control func(network, address string, c syscall.RawConn) error) dialer {
 	return &net.Dialer{Control: control, Timeout: time.Second}
 }
@@ -108,6 +112,9 @@ func (vnetEnv) dialTCP(addr string) (transport.StreamConn, error) {
 	return c, nil
 }
 func (vnetEnv) listenUDP(addr string) (net.PacketConn, error) { return vnet.ListenPacket("udp", addr) }
+func (vnetEnv) listenUDPNet(network, addr string) (net.PacketConn, error) {
+	return vnet.ListenPacket(network, addr)
+}
 func (vnetEnv) dialer(control func(network, address string, c syscall.RawConn) error) dialer {
 	return &vnet.Dialer{Control: control}
 }
@@ -315,6 +322,21 @@ var Scenarios = []Scenario{
 		e.settle()
 		readAll(c, l, "client")
 		c.Close()
+	}},
+	{"udp4-and-udp6-sockets-send-within-their-family-only", func(e env, l *log) {
+		v4dst := &net.UDPAddr{IP: net.IPv4(127, 0, 0, 1), Port: 9}
+		v6dst := &net.UDPAddr{IP: net.ParseIP("::1"), Port: 9}
+		for _, network := range []string{"udp4", "udp6", "udp"} {
+			pc, err := e.listenUDPNet(network, "")
+			if err != nil {
+				l.add("%s listen: %s", network, class(err))
+				continue
+			}
+			_, err4 := pc.WriteTo([]byte("x"), v4dst)
+			_, err6 := pc.WriteTo([]byte("x"), v6dst)
+			l.add("%s: to IPv4 ok=%v, to IPv6 ok=%v", network, err4 == nil, err6 == nil)
+			pc.Close()
+		}
 	}},
 	{"close-without-unread-data-is-fin", func(e env, l *log) {
 		ln, c, s := pair(e)
